@@ -189,11 +189,17 @@ func runStreamProduct(t *testing.T, r *h.Run, view string) {
 		}
 		key := "stream: " + name
 		v := r.Check(func() *h.Viol {
-			vv := checkTrace(lines, view)
-			if vv != nil {
-				vv.Key = key
+			for delivery := 0; delivery < 4; delivery++ {
+				vv := checkTraceDelivered(lines, view, delivery)
+				if vv != nil {
+					vv.Key = key
+					if delivery != 0 {
+						vv.Summary = fmt.Sprintf("(delivery %d: %s) ", delivery, []string{"", "line by line, EOF with the last data", "5-byte pieces, EOF with the last data", "one Read returning everything together with EOF"}[delivery]) + vv.Summary
+					}
+					return vv
+				}
 			}
-			return vv
+			return nil
 		})
 		out := "ok"
 		if v != nil {
